@@ -403,13 +403,17 @@ func (eng *Engine) initIntrinsics() {
 	}
 
 	// ---- math/bits leaf operations with SMT counterparts
-	in["math/bits.Mul64"] = func(ex *Exec, _ *frame, _ *ssa.Function, a []Value) Value {
+	in["math/bits.Mul64"] = func(ex *Exec, fr *frame, fn *ssa.Function, a []Value) Value {
 		x, y := a[0].(*Term), a[1].(*Term)
 		if x.op == OpConst && y.op == OpConst {
 			hi, lo := mul64(x.c, y.c)
 			return TupleV{Const(hi, 64), Const(lo, 64)}
 		}
-		panic(Unsupported{"bits.Mul64 on symbolic operands"})
+		// symbolic operand: the branch-free Go source (32-bit limbs) is executed as is
+		if len(fn.Blocks) == 0 {
+			panic(Unsupported{"bits.Mul64 on symbolic operands (no source body)"})
+		}
+		return ex.callSSA(fr, fn, a, nil)
 	}
 
 	// ---- fmt / errors formatting: opaque text
